@@ -44,6 +44,7 @@ import (
 	"reflect"
 	"strconv"
 	"strings"
+	"sync/atomic"
 	"time"
 	"unsafe"
 
@@ -61,7 +62,7 @@ import (
 	"verifharness/gal"
 )
 
-const header = "From CSS Require Import Lib.Base Lib.Cases Model.Interp Model.InterpHeap Model.InterpCases."
+const header = "From CSS Require Import Lib.Base Lib.Cases Model.Interp Model.InterpHeap Model.InterpSession Model.InterpCases."
 
 // ------------------------------------------------------------------ AST
 
@@ -210,15 +211,31 @@ type gFlow struct {
 	Steps []gTop `json:"steps"` // non-nil (possibly empty) Steps
 }
 
+// gOp: one operation of a session on a BootProcess.
+const (
+	opNext    = "next"    // N calls of NextStep, whatever they return
+	opFinish  = "finish"  // Finish
+	opSetFlow = "setflow" // State.SetFlow(flow Flow) between two calls
+)
+
+type gOp struct {
+	K    string `json:"op"`
+	N    int    `json:"n,omitempty"`
+	Flow int    `json:"flow,omitempty"`
+}
+
 // gCase: the closed input of one run.
 type gCase struct {
-	Flows   []gFlow `json:"flows"` // names outside this list are flows with nil Steps
-	Root    int     `json:"root"`
-	TPM     int     `json:"tpm"`      // -1: no TPM subsystem, 0: present, 1: present and already initialised
-	Actor0  int     `json:"actor0"`   // initial CurrentActor (-1 nil)
-	Meas0   []int   `json:"meas0"`    // MeasuredData present before the run
-	Steps   int     `json:"nextstep"` // -1: Finish; k >= 0: at most k NextStep calls
-	Comment string  `json:"comment,omitempty"`
+	Flows  []gFlow `json:"flows"` // names outside this list are flows with nil Steps
+	Root   int     `json:"root"`
+	TPM    int     `json:"tpm"`      // -1: no TPM subsystem, 0: present, 1: present and already initialised
+	Actor0 int     `json:"actor0"`   // initial CurrentActor (-1 nil)
+	Meas0  []int   `json:"meas0"`    // MeasuredData present before the run
+	Steps  int     `json:"nextstep"` // -1: Finish; k >= 0: at most k NextStep calls
+	// a session: the operations applied one after the other to ONE BootProcess
+	// (when present, Steps is not used)
+	Ops     []gOp  `json:"ops,omitempty"`
+	Comment string `json:"comment,omitempty"`
 	// the action arrays of the flow definition (every slot, spare capacity
 	// included) and how they were laid out
 	Arrays [][]gAct `json:"arrays"`
@@ -276,7 +293,29 @@ type hAction struct {
 	chain types.TrustChain
 }
 
+// park: the watchdog of run() gave this run up (a changed interpreter may loop
+// for ever on a family that is acyclic as defined): the abandoned goroutine
+// stops here instead of filling the memory with log entries
+func park(ctx context.Context) {
+	if g, ok := ctx.Value(guardKey{}).(*guard); ok && atomic.AddInt64(&g.calls, 1) == runawayCalls {
+		close(g.runaway) // no run of a generated case comes anywhere near: tell the watchdog now
+	}
+	if ctx.Err() != nil {
+		select {}
+	}
+}
+
+// guard: counts the calls of harness-defined steps and actions of one run
+type guardKey struct{}
+type guard struct {
+	calls   int64
+	runaway chan struct{}
+}
+
+const runawayCalls = 200000
+
 func (a *hAction) Apply(ctx context.Context, state *types.State) error {
+	park(ctx)
 	if a.Meas != nil {
 		state.AddMeasuredData(*a.Meas.data, a.chain, a.Meas)
 	}
@@ -298,7 +337,8 @@ type hStep struct {
 	Acts   types.Actions
 }
 
-func (s *hStep) Actions(context.Context, *types.State) types.Actions {
+func (s *hStep) Actions(ctx context.Context, _ *types.State) types.Actions {
+	park(ctx)
 	if s.Panics {
 		panic(errors.New("step " + strconv.Itoa(s.ID) + ": Actions panics"))
 	}
@@ -640,8 +680,16 @@ type obsResult struct {
 	ArraysChanged map[int][][2]int `json:"arrays_changed,omitempty"`
 	// "" or how the definition differs from what it was before the run
 	DefChanged string `json:"definition_changed,omitempty"`
-	// "" or which log entry changed after it had been recorded (stepwise runs)
+	// "" or which log entry changed after it had been recorded (stepwise runs, sessions)
 	Unstable string `json:"log_entry_changed,omitempty"`
+	// sessions: after every operation the length of the Log and whether the end
+	// of the flow was reported (next: the last call returned false; finish: true)
+	Trace []opObs `json:"trace,omitempty"`
+}
+
+type opObs struct {
+	Len   int  `json:"len"`
+	Ended bool `json:"ended"`
 }
 
 func sameStep(a, b types.Step) bool {
@@ -847,9 +895,11 @@ func (b *built) definitionChanged() string {
 }
 
 // projectLog: the observables of BootProcess.Log as it is now
-func (b *built) projectLog() []obsEntry {
+func (b *built) projectLog() []obsEntry { return b.projectLogOf(b.process.Log) }
+
+func (b *built) projectLogOf(l bootengine.Log) []obsEntry {
 	log := []obsEntry{}
-	for _, e := range b.process.Log {
+	for _, e := range l {
 		oe := obsEntry{Sid: b.sidOf(e.Step), Actions: [][2]int{}, Issues: []int{}, Actor: actorID(e.Actor), Code: -1}
 		for _, a := range e.Actions {
 			oe.Actions = append(oe.Actions, actionCode(a))
@@ -932,10 +982,96 @@ func showEntryAt(l []obsEntry, j int) string {
 	return showEntry(l[j])
 }
 
+// session applies gc.Ops to the one BootProcess.  After every call the whole
+// Log is read again: what earlier calls recorded must still be there and say
+// the same.  After every operation the caller also keeps the Log VALUE it sees
+// (the slice header); at the end each of these must still read what it read
+// when it was taken.
+func (b *built) session(ctx context.Context, trace *[]opObs) (ended bool, unstable string) {
+	var before []obsEntry
+	reread := func(after string) {
+		now := b.projectLog()
+		for j := range before {
+			if unstable == "" && (j >= len(now) || !sameEntry(before[j], now[j])) {
+				unstable = fmt.Sprintf("log entry %d was %s when it was recorded and reads %s after %s",
+					j, showEntry(before[j]), showEntryAt(now, j), after)
+			}
+		}
+		before = now
+	}
+	type keptLog struct {
+		after string
+		hdr   bootengine.Log
+		read  []obsEntry
+	}
+	var kept []keptLog
+	for i, op := range b.gc.Ops {
+		name := fmt.Sprintf("operation #%d (%s)", i+1, op.K)
+		switch op.K {
+		case opNext:
+			ended = false
+			for k := 0; k < op.N; k++ {
+				ended = !b.process.NextStep(ctx)
+				b.runaway()
+				reread(fmt.Sprintf("NextStep call %d of operation #%d", k+1, i+1))
+			}
+		case opFinish:
+			b.process.Finish(ctx)
+			ended = true
+			reread(name)
+		case opSetFlow:
+			b.state.SetFlow(b.flow(op.Flow))
+			ended = false
+			reread(name)
+		}
+		*trace = append(*trace, opObs{Len: len(b.process.Log), Ended: ended})
+		kept = append(kept, keptLog{after: name, hdr: b.process.Log, read: before})
+	}
+	for _, k := range kept {
+		now := b.projectLogOf(k.hdr)
+		for j := range k.read {
+			if unstable == "" && (j >= len(now) || !sameEntry(k.read[j], now[j])) {
+				unstable = fmt.Sprintf("the Log value read after %s: its entry %d was %s then and reads %s at the end of the session",
+					k.after, j, showEntry(k.read[j]), showEntryAt(now, j))
+			}
+		}
+	}
+	return ended, unstable
+}
+
+// runaway: a changed interpreter that rewrites the definition may make the
+// action lists grow from call to call (doubling: memory is gone within
+// seconds); no step of a generated definition asks for more than a few dozen
+// actions.  Stops the run (reported like a hang).
+func (b *built) runaway() {
+	if n := len(b.process.Log); n > 0 && len(b.process.Log[n-1].Actions) > 50000 {
+		panic(fmt.Sprintf("timeout: the step executed last asked for %d actions; the run was given up", len(b.process.Log[n-1].Actions)))
+	}
+}
+
+// parkStep / stopAll: Go cannot stop the goroutine of a run that was given up,
+// and a changed interpreter looping through built-in steps only never reaches
+// a harness-defined step or action, appending log entries until the memory is
+// gone.  The watchdog therefore replaces every step of the (abandoned) family
+// by a step that blocks; the observation of such a run is not used.
+type parkStep struct{}
+
+func (parkStep) Actions(context.Context, *types.State) types.Actions { select {} }
+
+func (b *built) stopAll() {
+	for _, f := range b.flows {
+		all := f.Steps[:cap(f.Steps)]
+		for j := range all {
+			all[j] = parkStep{}
+		}
+	}
+}
+
 // run executes the real interpreter under a watchdog.
 func run(gc *gCase) obsResult {
 	b := build(gc)
-	ctx := context.Background()
+	g := &guard{runaway: make(chan struct{})}
+	ctx, giveUp := context.WithCancel(context.WithValue(context.Background(), guardKey{}, g))
 	type res struct {
 		panicked bool
 		msg      string
@@ -943,9 +1079,14 @@ func run(gc *gCase) obsResult {
 	}
 	ch := make(chan res, 1)
 	unstable := ""
+	var trace []opObs
 	go func() {
 		var done bool
 		p, msg := gal.Recover(func() {
+			if gc.Ops != nil {
+				done, unstable = b.session(ctx, &trace)
+				return
+			}
 			if gc.Steps < 0 {
 				b.process.Finish(ctx)
 				done = true
@@ -954,6 +1095,7 @@ func run(gc *gCase) obsResult {
 			var before []obsEntry
 			for i := 0; i < gc.Steps; i++ {
 				more := b.process.NextStep(ctx)
+				b.runaway()
 				// the log records what was executed: the entries recorded by
 				// earlier calls still say the same
 				now := b.projectLog()
@@ -972,16 +1114,39 @@ func run(gc *gCase) obsResult {
 		})
 		ch <- res{p, msg, done}
 	}()
+	// a run of a generated case logs a few dozen entries
+	long := make(chan struct{})
+	go func() {
+		for ctx.Err() == nil {
+			if len(b.process.Log) > 200000 {
+				close(long)
+				return
+			}
+			time.Sleep(2 * time.Millisecond)
+		}
+	}()
 	select {
 	case r := <-ch:
+		giveUp()
 		o := b.observe(r.done)
 		o.Unstable = unstable
+		o.Trace = trace
 		o.Panicked, o.Msg = r.panicked, r.msg
 		if len(o.Msg) > 200 {
 			o.Msg = o.Msg[:200]
 		}
 		return o
+	case <-long:
+		giveUp()
+		b.stopAll()
+		return obsResult{Panicked: true, Msg: "timeout: interpreter did not terminate (more than 200000 log entries)", Log: []obsEntry{}}
+	case <-g.runaway:
+		giveUp()
+		b.stopAll()
+		return obsResult{Panicked: true, Msg: "timeout: interpreter did not terminate (runaway: " + strconv.Itoa(runawayCalls) + " calls of steps/actions)", Log: []obsEntry{}}
 	case <-time.After(20 * time.Second):
+		giveUp()
+		b.stopAll()
 		return obsResult{Panicked: true, Msg: "timeout: interpreter did not terminate", Log: []obsEntry{}}
 	}
 }
@@ -1182,7 +1347,33 @@ func galObs(o obsResult) string {
 		gal.IntList(o.Measured) + ", " + optZ(o.Actor) + ", " + galTPM(o.TPM) + ", " + gal.Bool(o.Done) + "))"
 }
 
+func galOps(ops []gOp) string {
+	r := make([]string, len(ops))
+	for i, op := range ops {
+		switch op.K {
+		case opNext:
+			r[i] = "ONext " + gal.Nat(op.N)
+		case opFinish:
+			r[i] = "OFinish"
+		default:
+			r[i] = "OSetFlow " + gal.Z(int64(op.Flow))
+		}
+	}
+	return gal.List(r)
+}
+
+func galTrace(t []opObs) string {
+	r := make([]string, len(t))
+	for i, x := range t {
+		r[i] = gal.Pair(gal.Nat(x.Len), gal.Bool(x.Ended))
+	}
+	return gal.List(r)
+}
+
 func galCase(gc *gCase, o obsResult) string {
+	if gc.Ops != nil {
+		return "CHSession " + galHeap(gc) + " " + galFamily(gc) + " " + galCore(gc) + " " + gal.Z(int64(gc.Root)) + " " + galOps(gc.Ops) + " " + galObs(o) + " " + galHObs(o) + " " + galTrace(o.Trace)
+	}
 	if gc.Steps < 0 {
 		return "CHFinish " + galHeap(gc) + " " + galFamily(gc) + " " + galCore(gc) + " " + gal.Z(int64(gc.Root)) + " " + galObs(o) + " " + galHObs(o)
 	}
@@ -1217,6 +1408,10 @@ type oracle struct {
 	// chose differently from what the state at the start of their step gives
 	funcApplied, funcSensitive int
 	stepStart                  *oracle // snapshot of the state when the current step began
+	// sessions: the steps of the current flow that are still to be executed,
+	// and what every operation should leave behind
+	todo  []gTop
+	trace []opObs
 }
 
 type stepPanic struct{}
@@ -1459,6 +1654,58 @@ func (o *oracle) runFlow(name int) {
 	}
 }
 
+// Sessions.  The property speaks about running a flow: "executes its steps in
+// order starting at the first one ... switches to the first step of the new
+// flow immediately after an action changes the flow ... stops after the last
+// step of the current flow", and about the log: "one entry per executed step".
+// A process that is driven by several calls executes the same steps, each of
+// them once, whoever asks for the next one:
+//
+//	enter(f)  the flow to run is f: its first step comes next
+//	next()    one NextStep call: executes the step that comes next, if there
+//	          is one left in the current flow
+//
+// Finish is next() until nothing is left; State.SetFlow(f) is enter(f).  Every
+// executed step leaves one entry, and an entry is never taken back.
+func (o *oracle) enter(flow int) {
+	o.lastFlow = flow
+	o.todo = o.fam[flow] // nil for flows without steps
+}
+
+func (o *oracle) next() bool {
+	if len(o.todo) == 0 {
+		return false // past the last step of the current flow
+	}
+	ts := o.todo[0]
+	o.todo = o.todo[1:]
+	if f := o.runStep(ts); f >= 0 {
+		o.enter(f)
+	}
+	return true
+}
+
+func (o *oracle) runSession(root int, ops []gOp) {
+	o.enter(root)
+	o.budget = -1
+	for _, op := range ops {
+		ended := false
+		switch op.K {
+		case opNext:
+			for k := 0; k < op.N; k++ {
+				ended = !o.next()
+			}
+		case opFinish:
+			for o.next() {
+			}
+			ended = true
+		case opSetFlow:
+			o.enter(op.Flow)
+		}
+		o.trace = append(o.trace, opObs{Len: len(o.log), Ended: ended})
+		o.finished = ended
+	}
+}
+
 func newOracle(gc *gCase) *oracle {
 	o := &oracle{gc: gc, fam: map[int][]gTop{}, actor: gc.Actor0, tpm: gc.TPM, budget: gc.Steps}
 	for _, f := range gc.Flows {
@@ -1500,9 +1747,34 @@ const site = "pkg/bootflow/bootengine/boot_process.go"
 func judge(gc *gCase, obs obsResult) (what string, where string, o *oracle) {
 	what, where = "", ""
 	o = newOracle(gc)
+	if gc.Ops != nil {
+		o.runSession(gc.Root, gc.Ops)
+		what, where = judgeWith(gc, obs, o)
+		if what == "" && !obs.Panicked {
+			what, where = judgeTrace(gc, obs, o)
+		}
+		return
+	}
 	o.runFlow(gc.Root)
 	what, where = judgeWith(gc, obs, o)
 	return
+}
+
+// judgeTrace: what every single operation of a session left behind
+func judgeTrace(gc *gCase, obs obsResult, o *oracle) (what string, where string) {
+	if len(obs.Trace) != len(o.trace) {
+		return fmt.Sprintf("%d of the %d operations of the session were carried out", len(obs.Trace), len(o.trace)), site
+	}
+	for i, w := range o.trace {
+		g := obs.Trace[i]
+		if g.Len != w.Len {
+			return fmt.Sprintf("after operation #%d (%s) the log has %d entries, %d steps have been executed by then", i+1, gc.Ops[i].K, g.Len, w.Len), site + " NextStep/Finish"
+		}
+		if g.Ended != w.Ended {
+			return fmt.Sprintf("operation #%d (%s): end of the flow reported = %v, expected %v", i+1, gc.Ops[i].K, g.Ended, w.Ended), site + " stateNextStep"
+		}
+	}
+	return "", ""
 }
 
 func judgeWith(gc *gCase, obs obsResult, o *oracle) (what string, where string) {
@@ -2014,6 +2286,72 @@ func (g *gen) family(acyclic bool) *gCase {
 	return gc
 }
 
+// sessions: the family is driven by several operations on one BootProcess.
+// Finish only on acyclic families (it would not return on a loop); any flow of
+// the family, the root again or a flow without steps may be given to SetFlow.
+func (g *gen) ops(gc *gCase, acyclic bool) {
+	anyFlow := func() int {
+		if g.p(8) {
+			return 100 // a flow with nil Steps
+		}
+		return g.rn(len(gc.Flows))
+	}
+	next := func(max int) gOp { return gOp{K: opNext, N: g.rn(max + 1)} }
+	var ops []gOp
+	if !acyclic {
+		// single-stepping, now and then another flow is given to the state
+		left := 26
+		for n := 1 + g.rn(5); n > 0 && left > 0; n-- {
+			if g.p(25) {
+				ops = append(ops, gOp{K: opSetFlow, Flow: anyFlow()})
+				continue
+			}
+			op := next(8)
+			if op.N > left {
+				op.N = left
+			}
+			left -= op.N
+			ops = append(ops, op)
+		}
+		gc.Ops, gc.Steps = ops, -1
+		return
+	}
+	switch r := g.rn(100); {
+	case r < 40:
+		// single-stepped for a while (possibly beyond the end), the rest with Finish
+		ops = append(ops, next(11))
+		if g.p(25) {
+			ops = append(ops, next(3))
+		}
+		ops = append(ops, gOp{K: opFinish})
+	case r < 65:
+		// run to the end, then run further flows on the same process
+		ops = append(ops, gOp{K: opFinish})
+		for n := 1 + g.rn(3); n > 0; n-- {
+			ops = append(ops, gOp{K: opSetFlow, Flow: anyFlow()})
+			if g.p(30) {
+				ops = append(ops, next(4))
+			}
+			ops = append(ops, gOp{K: opFinish})
+		}
+	default:
+		for n := 2 + g.rn(5); n > 0; n-- {
+			switch q := g.rn(100); {
+			case q < 45:
+				ops = append(ops, next(5))
+			case q < 75:
+				ops = append(ops, gOp{K: opFinish})
+			default:
+				ops = append(ops, gOp{K: opSetFlow, Flow: anyFlow()})
+			}
+		}
+		if g.p(50) {
+			ops = append(ops, gOp{K: opFinish})
+		}
+	}
+	gc.Ops, gc.Steps = ops, -1
+}
+
 // ------------------------------------------------------------------ memory layout of the definition
 
 // listNodes: the steps that own an action list, in definition order, each
@@ -2497,6 +2835,55 @@ func fixedCases() []*gCase {
 	return r
 }
 
+// fixedSessions: an 8-step flow (failing, measuring, panicking steps) whose
+// last step switches into a 2-step flow, driven in every way a caller can mix
+// the calls: k single steps (k = 0..12, beyond the end too) and then Finish;
+// Finish twice; Finish, NextStep after the end; Finish, then the next flow (or
+// the same flow again) on the same process.
+func fixedSessions() []*gCase {
+	mk := func(ops ...gOp) *gCase {
+		var steps []gTop
+		for i := 0; i < 7; i++ {
+			var s *gStep
+			switch i % 4 {
+			case 0:
+				s = static(customA(100+i, 200+i, -1, rOk))
+			case 1:
+				s = static(customA(100+i, -1, -1, rErr), customA(300+i, 400+i, -1, rPanic))
+			case 2:
+				s = &gStep{K: sCustom, ID: 500 + i, Panics: true}
+			default:
+				s = &gStep{K: sSetActor, Actor: i}
+			}
+			steps = append(steps, gTop{Sid: 10 + i, S: s})
+		}
+		steps = append(steps, gTop{Sid: 17, S: &gStep{K: sSetFlow, Flow: 1}})
+		return &gCase{
+			Flows: []gFlow{
+				{Name: 0, Steps: steps},
+				{Name: 1, Steps: []gTop{{Sid: 20, S: static(customA(120, 220, -1, rErr))}, {Sid: 21, S: static(act(aPanic))}}},
+			},
+			Root: 0, TPM: -1, Actor0: -1, Meas0: []int{}, Steps: -1, Ops: append([]gOp{}, ops...), Comment: "session",
+		}
+	}
+	fin := gOp{K: opFinish}
+	var r []*gCase
+	for k := 0; k <= 12; k++ {
+		r = append(r, mk(gOp{K: opNext, N: k}, fin))
+	}
+	r = append(r,
+		mk(fin, fin),
+		mk(fin, gOp{K: opNext, N: 3}, fin),
+		mk(fin, gOp{K: opSetFlow, Flow: 1}, fin),
+		mk(fin, gOp{K: opSetFlow, Flow: 0}, fin, gOp{K: opSetFlow, Flow: 1}, gOp{K: opNext, N: 1}, fin),
+		mk(gOp{K: opNext, N: 3}, gOp{K: opSetFlow, Flow: 0}, gOp{K: opNext, N: 2}, fin),
+		mk(fin, gOp{K: opSetFlow, Flow: 100}, fin, gOp{K: opNext, N: 2}),
+		mk(),
+		mk(gOp{K: opSetFlow, Flow: 1}),
+	)
+	return r
+}
+
 // ------------------------------------------------------------------ main
 
 func nontrivial(o obsResult) bool { return len(o.Log) >= 2 }
@@ -2592,8 +2979,12 @@ func one(c *gal.Ctx, kind string, gc *gCase) {
 		c.Count("runs where a flow function answers differently for the state at the start of its step")
 	}
 	// the log records what was executed, and goes on recording it
-	if what == "" && o.Unstable != "" {
-		what, where = "a log entry changed after it was recorded: "+o.Unstable, site+" NextStep (StepResult.Actions shares memory that is written later)"
+	if o.Unstable != "" {
+		if what == "" {
+			what, where = "a log entry changed after it was recorded: "+o.Unstable, site+" NextStep/Finish (an entry of BootProcess.Log was overwritten or lost, or StepResult.Actions shares memory that is written later)"
+		} else {
+			what += "; a log entry changed after it was recorded: " + o.Unstable
+		}
 	}
 	// the run is judged against the flow as defined before it; it must still be that flow
 	if o.DefChanged != "" {
@@ -2673,12 +3064,23 @@ func main() {
 		}
 		one(c, kind, gc)
 	}
+	for _, gc := range fixedSessions() {
+		one(c, "fixed/session", gc)
+	}
 	g := &gen{c: c}
 	n := c.Scale(8000, 40000)
 	for i := 0; i < n; i++ {
 		switch {
+		case i%10 == 9:
+			gc := g.family(false)
+			g.ops(gc, false)
+			one(c, "random/cyclic-session", gc)
 		case i%5 == 4:
 			one(c, "random/cyclic-nextstep", g.family(false))
+		case i%5 == 3:
+			gc := g.family(true)
+			g.ops(gc, true)
+			one(c, "random/acyclic-session", gc)
 		default:
 			gc := g.family(true)
 			if gc.Steps >= 0 {
@@ -2705,6 +3107,10 @@ func main() {
 		"holes (nil entries of Steps, nil pointer steps; every fifth family has 8-35% of them, at any position), tpmsteps.LogInit on its own, " +
 		"static and function-based set-flow steps/actions incl. functions placed after an action of the same step that changes what they look at, panicking functions) run with Finish; " +
 		"every fifth family is cyclic and run with a bounded number of NextStep calls; fixed edge cases; " +
+		"every fifth acyclic and every second cyclic family is driven as a session of several operations on ONE BootProcess (acyclic: 40% k<=11 single NextStep calls, also beyond the end, then Finish; " +
+		"25% Finish, then 1-3 times State.SetFlow(any flow of the family / the root again / a flow without steps) and Finish; 35% 2-7 random operations next(<=5)/finish/setflow; cyclic: blocks of NextStep calls and SetFlow), " +
+		"the oracle executing the same steps whoever asks for the next one; after every call the whole Log is re-read (recorded entries stay and say the same), after every operation the log length and the reported end are compared, " +
+		"and every Log value the caller saw between operations is re-read at the end; fixed sessions: 8-step flow switching into a 2-step flow, k=0..12 single steps then Finish, Finish twice, NextStep after the end, further flows on the finished process; " +
 		"every family has a memory layout: the action lists of static/custom steps are windows of action arrays of the definition (15% private exact, 15% private with spare capacity, " +
 		"70% several lists of several flows side by side in 1-3 arrays with full/limited/no spare capacity; in 60% of the non-exact layouts 10-40% of the steps re-use the window, a prefix or a sub-window of an earlier step of their flow); " +
 		"after the run every slot of the definition's arrays and Steps arrays is compared with its value before the run, stepwise runs re-read the recorded log entries after every NextStep; " +
